@@ -1,60 +1,109 @@
-/-! C15 — cancel in state `Executing`: the actor and the spawned MPC task talk through ONE `tokio::sync::Notify` used in both
-    directions. Model of `Notify`: at most one stored permit; `notify_one` wakes a registered waiter or else stores a permit;
-    `notified().await` consumes a stored permit immediately or else registers as waiter.  -/
+/-! C15 — cancel in state `Executing`: the actor (inside `cancel()`) and the spawned MPC task (a `select!` over the computation and
+    `cancel.notified()`), under every interleaving.
+
+    Model of `tokio::sync::Notify`: at most one stored permit; `notify_one` wakes a registered waiter or else stores a permit;
+    `notified().await` consumes a stored permit immediately or else registers as waiter. Model of a `oneshot` acknowledgement:
+    the receiver resolves once the sender has sent or has been dropped.
+
+    * `Design.pinned`  — the tree as it was: ONE `Notify` used in both directions (request and acknowledgement).
+    * `Design.current` — the tree as it is (fix commit "cancel during execution waits for the task's acknowledgement"):
+      the request travels on the `Notify`, the acknowledgement on a separate `oneshot` whose sender lives in the task, so it
+      also resolves when the task has already finished with the real result.
+
+    The task may at any moment before it is woken complete the computation (deliver the real result, release the permit, drop the
+    acknowledgement sender); when it has been woken AND the computation is complete at the same poll, `select!` may take either
+    branch — both are transitions of the model. -/
 namespace PolytuneModel.Cancel
 
+inductive Design | pinned | current deriving DecidableEq, Repr
+
 structure S where
-  permit      : Bool := false     -- stored permit of the Notify
-  taskWaits   : Bool := false     -- the MPC task's `cancel.notified()` (inside `select!`) is registered
-  taskWoken   : Bool := false
-  taskDone    : Bool := false     -- task has sent `Cancelled` to the destination and called notify_one
-  actorPc     : Nat := 0          -- 0: before notify_one, 1: before notified().await, 2: waiting, 3: replied Ok and stopped
-  actorWoken  : Bool := false
-  cancelledSent : Bool := false
+  permit        : Bool := false    -- stored permit of the request `Notify`
+  taskWaits     : Bool := false    -- the task's `cancel.notified()` is registered (first poll of the `select!` happened)
+  taskWoken     : Bool := false    -- … and has been notified
+  taskEnded     : Bool := false    -- the `select!` has completed (either branch); futures dropped, permit of the semaphore released
+  actorPc       : Nat := 0         -- 0: before notify_one, 1: before awaiting the acknowledgement, 2: waiting, 3: replied Ok and stopped
+  actorWoken    : Bool := false    -- pinned design: the task's `notify_one` reached the actor
+  ackResolved   : Bool := false    -- current design: the oneshot has been sent on or dropped
+  cancelledSent : Nat := 0         -- `Cancelled` notifications sent to the destination
+  resultSent    : Nat := 0         -- real results sent to the destination
+  semPermitHeld : Bool := true     -- the leader's concurrency permit (moved into the computation future)
 deriving DecidableEq, Repr
 
-inductive Who | actor | task deriving DecidableEq, Repr
+inductive Who | actor | taskCancel | taskFinish deriving DecidableEq, Repr
 
-/-- one scheduling step of the pinned design (`twoSignals = false`) or of the repaired one, in which the acknowledgement
-    travels on a second, separate signal so that the actor can never consume its own notification. -/
-def step (twoSignals : Bool) (s : S) : Who → Option S
+def step (d : Design) (s : S) : Who → Option S
   | .actor =>
     match s.actorPc with
     | 0 => -- cancel.notify_one()
-      if s.taskWaits ∧ !s.taskWoken then some { s with taskWoken := true, actorPc := 1 } else some { s with permit := true, actorPc := 1 }
-    | 1 => -- cancel.notified().await  (pinned: same Notify; repaired: a separate acknowledgement signal)
-      if twoSignals then (if s.taskDone then some { s with actorPc := 3 } else some { s with actorPc := 2 })
-      else if s.permit then some { s with permit := false, actorPc := 3 }        -- consumes ITS OWN permit
-      else if s.actorWoken then some { s with actorPc := 3 } else some { s with actorPc := 2 }
-    | 2 => if (twoSignals ∧ s.taskDone) ∨ (!twoSignals ∧ s.actorWoken) then some { s with actorPc := 3 } else none
+      if s.taskWaits ∧ !s.taskWoken ∧ !s.taskEnded then some { s with taskWoken := true, actorPc := 1 } else some { s with permit := true, actorPc := 1 }
+    | 1 =>
+      match d with
+      | .current => if s.ackResolved then some { s with actorPc := 3 } else some { s with actorPc := 2 }     -- `cancelled.await`
+      | .pinned  =>                                                                                        -- `cancel.notified().await` on the SAME Notify
+        if s.permit then some { s with permit := false, actorPc := 3 }        -- consumes ITS OWN permit
+        else if s.actorWoken then some { s with actorPc := 3 } else some { s with actorPc := 2 }
+    | 2 => if (d = .current ∧ s.ackResolved) ∨ (d = .pinned ∧ s.actorWoken) then some { s with actorPc := 3 } else none
     | _ => none
-  | .task =>
-    if s.taskDone then none
-    else if !s.taskWaits ∧ !s.taskWoken then
+  | .taskCancel =>
+    if s.taskEnded then none
+    else if !s.taskWaits then
       -- first poll of the select!: a stored permit is consumed immediately, otherwise register
       if s.permit then some { s with permit := false, taskWoken := true, taskWaits := true } else some { s with taskWaits := true }
     else if s.taskWoken then
-      -- send_cancel(...) then cancel.notify_one()
-      some { s with taskDone := true, cancelledSent := true, actorWoken := (if twoSignals then s.actorWoken else true) }
+      -- cancel branch: futures dropped (permit released), send_cancel(...), then acknowledge
+      some { s with taskEnded := true, semPermitHeld := false, cancelledSent := s.cancelledSent + 1,
+                    actorWoken := (d = .pinned) || s.actorWoken, ackResolved := (d = .current) || s.ackResolved }
     else none
+  | .taskFinish =>
+    -- the computation completes: result delivered, permit released, `Stop` enqueued behind the cancel; the acknowledgement sender is dropped
+    if s.taskEnded then none
+    else some { s with taskEnded := true, taskWaits := true, semPermitHeld := false, resultSent := s.resultSent + 1, ackResolved := (d = .current) || s.ackResolved }
+
+def succs (d : Design) (s : S) : List S := [step d s .actor, step d s .taskCancel, step d s .taskFinish].filterMap id
 
 /-- all states reachable within `fuel` steps under every interleaving. -/
-def reach (two : Bool) : Nat → List S → List S
+def reach (d : Design) : Nat → List S → List S
   | 0, acc => acc
-  | f+1, acc =>
-    let next := acc.flatMap fun s => [step two s .actor, step two s .task].filterMap id
-    reach two f ((acc ++ next).eraseDups)
+  | f+1, acc => reach d f ((acc ++ acc.flatMap (succs d)).eraseDups)
 
-/-- **C15-a (pinned tree):** there is an interleaving in which `cancel` has replied `Ok` (pc = 3) although no `Cancelled`
-    notification was sent: the actor calls `notify_one` before the task first polls `notified()`, the permit is stored,
-    and the actor's own `notified().await` consumes it. -/
-theorem C15_cex_notify_self : ∃ s ∈ reach false 6 [{}], s.actorPc = 3 ∧ s.cancelledSent = false := by decide
+/-- **C15-a (pinned tree):** there is an interleaving in which `cancel` has replied `Ok` (pc = 3) although neither a `Cancelled`
+    notification nor a result has been sent and the permit is still held: the actor calls `notify_one` before the task first polls
+    `notified()`, the permit is stored, and the actor's own `notified().await` consumes it. -/
+theorem C15_cex_notify_self : ∃ s ∈ reach .pinned 6 [{}], s.actorPc = 3 ∧ s.cancelledSent = 0 ∧ s.resultSent = 0 ∧ s.semPermitHeld = true := by decide
 
-/-- **Repaired design:** in every reachable state, a replied cancel implies that the destination has been notified. -/
-theorem C15_two_signals_sound : ∀ s ∈ reach true 8 [{}], s.actorPc = 3 → s.cancelledSent = true := by decide
-/-- … and the repaired design cannot get stuck before replying (every terminal state has pc = 3). -/
-theorem C15_two_signals_live : ∀ s ∈ reach true 8 [{}], (step true s .actor = none ∧ step true s .task = none) → s.actorPc = 3 := by decide
-/-- 8 steps exhaust the state space (a ninth adds nothing). -/
-theorem C15_fixpoint : (reach true 9 [{}]).length = (reach true 8 [{}]).length ∧ (reach false 9 [{}]).length = (reach false 8 [{}]).length := by decide
+/-- the pinned design can moreover hang: when the task has already finished, nobody ever acknowledges (pc stays 2 in a terminal state). -/
+theorem C15_cex_pinned_stuck : ∃ s ∈ reach .pinned 6 [{}], succs .pinned s = [] ∧ s.actorPc = 2 := by decide
+
+def okAtReply (s : S) : Bool := s.cancelledSent + s.resultSent == 1 && !s.semPermitHeld && s.taskEnded
+
+/-- **Current design, safety:** in every reachable state in which cancel has replied `Ok`, the destination has been sent exactly one
+    notification (`Cancelled`, or the real result if the run had already finished), the task has ended (so nothing is sent afterwards)
+    and the leader's permit has been released. -/
+theorem C15_current_sound : ∀ s ∈ reach .current 8 [{}], s.actorPc = 3 → okAtReply s = true := by decide
+/-- never more than one notification, at any time. -/
+theorem C15_current_at_most_one : ∀ s ∈ reach .current 8 [{}], s.cancelledSent + s.resultSent ≤ 1 := by decide
+/-- **liveness:** the current design cannot get stuck before replying (every terminal state has pc = 3). -/
+theorem C15_current_live : ∀ s ∈ reach .current 8 [{}], succs .current s = [] → s.actorPc = 3 := by decide
+/-- 8 steps exhaust the state space (a ninth adds nothing), so the three statements above are about ALL reachable states. -/
+theorem C15_fixpoint : (reach .current 9 [{}]).length = (reach .current 8 [{}]).length ∧ (reach .pinned 9 [{}]).length = (reach .pinned 8 [{}]).length := by decide
+
+/-- generic closure lemma: a list closed under `succs` that contains the start contains everything reachable by any schedule. -/
+inductive Reach (d : Design) : S → Prop
+  | init : Reach d {}
+  | step {s t} : Reach d s → t ∈ succs d s → Reach d t
+
+def allStates : List S := reach .current 8 [{}]
+theorem allStates_closed : ∀ s ∈ allStates, ∀ t ∈ succs .current s, t ∈ allStates := by decide
+theorem allStates_init : ({} : S) ∈ allStates := by decide
+
+/-- **C15 for the current design, over every schedule of any length** (not only the explored prefix). -/
+theorem C15_current_all_schedules (s : S) (h : Reach .current s) :
+    (s.actorPc = 3 → okAtReply s = true) ∧ s.cancelledSent + s.resultSent ≤ 1 ∧ (succs .current s = [] → s.actorPc = 3) := by
+  have hmem : s ∈ allStates := by
+    induction h with
+    | init => exact allStates_init
+    | step _ ht ih => exact allStates_closed _ ih _ ht
+  exact ⟨C15_current_sound s hmem, C15_current_at_most_one s hmem, C15_current_live s hmem⟩
 
 end PolytuneModel.Cancel
